@@ -3,7 +3,6 @@
    the surrounding text is needed). *)
 From V.model Require Import Base Deb822Lex Deb822Parse Grammar.
 From V.proofs Require Import BaseP Deb822LexP Deb822ParseP GrammarLexP.
-Set Default Timeout 60.
 
 (* ---------- a bad pattern at the start of a line, on token lists ---------- *)
 Definition bad_here (ts : list token) : bool :=
